@@ -122,6 +122,34 @@ def run(eng, R):
         and "_fit.add_error(axis, error, relative=relative, reference=_reference)" in src
     R.ob("S-wrap", "xy_fit._add_error_to_fit", ok, (xf.file, xf.lineno), "the xy helper must forward axis, the relative flag and the reference to add_error / add_matrix_error")
 
+    # ---- wrapper configuration order: values given with `fixed` survive (the bulk start-value setter writes every parameter, fixed ones included)
+    R.rule("S-order", "the generic wrapper sets the start values before it fixes parameters (fix_parameter(name, value) sets the value; a later set_all_parameter_values overwrites it), "
+                      "and runs the fit only after all configuration calls", 2)
+    fw = wm.functions.get("_fit_wrapper_generic")
+    if fw is None:
+        raise AnalysisError("wrapper _fit_wrapper_generic not found")
+    g = eng.cfg(fw)
+
+    def calls(n, names):
+        for part in n.ast_parts():
+            for c in ast.walk(part):
+                if isinstance(c, ast.Call) and isinstance(c.func, ast.Attribute) and c.func.attr in names and isinstance(c.func.value, ast.Name) and c.func.value.id == "fit":
+                    return True
+        return False
+
+    fixes = [n for n in g.nodes if calls(n, {"fix_parameter"})]
+    bulk = [n for n in g.nodes if calls(n, {"set_all_parameter_values", "set_parameter_values"})]
+    fits = [n for n in g.nodes if calls(n, {"do_fit"})]
+    if not fixes or not bulk or not fits:
+        raise AnalysisError("_fit_wrapper_generic: fix / start value / do_fit calls not found")
+    bad = [1 for a in fixes for b in bulk if g.find_path(a.id, lambda m, b=b: m.id == b.id, exceptional=False)]
+    R.ob("S-order", "_fit_wrapper_generic:start values before fixing", not bad, (fw.file, fw.lineno),
+         "the start values are written after parameters were fixed: a value given with `fixed=(name, value)` is overwritten by p0 and the wrapper fits a different problem than the explicit calls")
+    cfgcalls = [n for n in g.nodes if calls(n, {"fix_parameter", "limit_parameter", "add_parameter_constraint", "set_all_parameter_values"}) or any(
+        isinstance(st, ast.Assign) and any(isinstance(t, ast.Attribute) and t.attr == "parameter_errors" for t in st.targets) for st in [n.stmt] if st is not None)]
+    bad = [1 for a in fits for b in cfgcalls if g.find_path(a.id, lambda m, b=b: m.id == b.id, exceptional=False)]
+    R.ob("S-order", "_fit_wrapper_generic:fit last", not bad and len(cfgcalls) >= 4, (fw.file, fw.lineno), "a configuration call can follow do_fit: the returned results belong to a different configuration")
+
     # ---- percent shorthand
     pe = p.resolve_name(p.module("kafe2.fit.representation.error.common_error_tools"), "process_error_sources")
     src = common.src_of(pe.node)
